@@ -398,6 +398,9 @@ func parRound(r int, rng *rand.Rand) {
 		run.Count("capacity_probes", 1)
 	}
 	run.Distinct(vk.Hash(r, thr, spec["a"]))
+	if r < 2 {
+		run.Sample(map[string]interface{}{"round": r, "threshold": thr, "specific_a": spec["a"], "goroutines": 16, "steps_each": 200})
+	}
 }
 
 func main() {
